@@ -11,7 +11,7 @@
    the Connection/sink state, the handle state and the ghost log (accepted, delivered, ...) of x. *)
 From Coq Require Import List NArith Bool.
 From V.gen Require Consts.
-From V.C12 Require Import Model Proofs Inv2 Async Sched Progress.
+From V.C12 Require Import Model Proofs Inv2 Async Sched Progress Live.
 Import ListNotations.
 Open Scope N_scope.
 
@@ -126,6 +126,24 @@ Theorem C12_sync_nonblocking :
   end.
 Proof. exact send_sync_spec. Qed.
 Print Assumptions C12_sync_nonblocking.
+
+(* The same call on a clone of the NotificationSink of stream k, without the handle (no lookup in `peers`, no
+   `clogged` set): one step with three outcomes (0 accepted, 1 ChannelClogged, 2 NoConnection: the stream of the
+   sink has ended); the handle of the endpoint is untouched, so no ForceClose is ever raised by it. *)
+Theorem C12_sink_sync_nonblocking :
+  forall (c : cfg) (x : bool) (s : st) (k t l : N),
+  let '(s', r) := sink_sync c x s k t l in
+  gep s' (negb x) = gep s (negb x) /\ lAB s' = lAB s /\ lBA s' = lBA s /\
+  hn s' x = hn s x /\ e_aq (cn s' x) = e_aq (cn s x) /\
+  e_fclog (gl s' x) = e_fclog (gl s x) /\
+  if live s x k then
+    if len (e_sq (cn s x)) <? c_s (ecf c x)
+    then r = 0 /\ e_sq (cn s' x) = e_sq (cn s x) ++ [mkN x k true t l] /\
+         e_acc (gl s' x) = e_acc (gl s x) ++ [mkN x k true t l]
+    else r = 1 /\ s' = s
+  else r = 2 /\ s' = s.
+Proof. exact sink_sync_spec. Qed.
+Print Assumptions C12_sink_sync_nonblocking.
 
 (* At most one ForceClose per stream: the log of the streams for which a handle queued ForceClose has
    no duplicates, under any schedule. *)
@@ -312,6 +330,45 @@ Theorem C12_handle_progress :
 Proof. exact handle_progress. Qed.
 Print Assumptions C12_handle_progress.
 
+(* ---------------------------------------------------------------- eventual delivery under a fair scheduler *)
+
+(* The per-stage progress facts composed. s is ANY reachable state in which the stream is open at both ends and
+   left alone (`drainable c b s`: transport up, both Connections running and not asked to shut down, gates open,
+   everything under way within both maxima, both users have seen NotificationStreamOpened, the polls have more
+   budget b than what is queued, handle channels of capacity >= 1). `fair_rounds b n` is n rounds of a fair
+   scheduler: in each round both Connection tasks and both users are polled. After at least as many rounds as
+   notifications are under way (`under_way s`: in the queues, the sinks, the carriers and the handle channels,
+   both directions), every notification accepted on the stream, in either direction and through either mode, has
+   been delivered: the delivered sequence IS the accepted sequence; and the stream is still open and drained. *)
+Theorem C12_eventual_delivery :
+  forall (c : cfg) (hs : list (list bool)) (ts : list step) (b : N) (n : nat),
+    let s := final c hs ts in
+    drainable c b s -> (under_way s <= n)%nat ->
+    let s' := final c hs (ts ++ fair_rounds b n) in
+    drainable c b s' /\ under_way s' = O /\
+    forall x m, proj (per s) m (e_del (gl s' (negb x))) = proj (per s) m (e_acc (gl s x)).
+Proof. exact eventual_delivery. Qed.
+Print Assumptions C12_eventual_delivery.
+
+(* One round never loses ground and, while anything is under way, gains some. *)
+Theorem C12_fair_round_progress :
+  forall (c : cfg) (b : N) (s : st), drainable c b s ->
+    let s' := fst (run c s (fair_round b)) in
+    drainable c b s' /\ same_acc s s' /\
+    (under_way s' <= under_way s)%nat /\ (under_way s <> O -> (under_way s' < under_way s)%nat).
+Proof. exact fair_round_progress. Qed.
+Print Assumptions C12_fair_round_progress.
+
+(* The first notification delivered on a stream through a mode is the first one accepted on it through that mode
+   (with C12_start_inbound_clean: nothing that was not sent precedes it). *)
+Theorem C12_first_delivered_is_first_accepted :
+  forall (c : cfg) (hs : list (list bool)) (ts : list step) (x : bool) (k : N) (m : bool) (n : notif) (rest : list notif),
+    let s := final c hs ts in
+    proj k m (e_del (gl s (negb x))) = n :: rest ->
+    exists rest', proj k m (e_acc (gl s x)) = n :: rest'.
+Proof. exact first_delivered_is_first_accepted. Qed.
+Print Assumptions C12_first_delivered_is_first_accepted.
+
 (* ---------------------------------------------------------------- the quiescence stream *)
 
 (* The first harness stream ("one user action, then run the tasks until nothing is runnable") is a
@@ -357,3 +414,23 @@ Example C12_example_clog :
   skipn 3 rs = [RCode 0; RCode 0; RCode 1; RCode 1; RCode 1; RCode 1; RCode 1] /\
   e_fclog (gl s true) = [1] /\ e_alive (cn s true) = false /\ e_alive (cn s false) = false.
 Proof. vm_compute. repeat split; reflexivity. Qed.
+
+(* the hypotheses of C12_eventual_delivery are satisfiable: both ends open, both users have seen Opened, five
+   notifications accepted (two of them from waiting async senders are not: they are not accepted yet), nothing polled;
+   three rounds deliver everything *)
+Example C12_example_drainable :
+  let ts := [SOpen true; SOpen false; SHandle true 128; SHandle false 128;
+             SSync true 1 4; SSync false 2 5; SAsyncStart true 0 3 6; SAsyncStart false 1 4 7; SSync true 5 8] in
+  let s := final ex_cfg [[true; false; true]; [false; true]] ts in
+  drainable ex_cfg 128 s /\ under_way s = 5%nat /\
+  let s' := final ex_cfg [[true; false; true]; [false; true]] (ts ++ fair_rounds 128 5) in
+  e_del (gl s' false) = [mkN true 1 true 1 4; mkN true 1 false 3 6; mkN true 1 true 5 8] /\
+  e_del (gl s' true) = [mkN false 1 false 4 7; mkN false 1 true 2 5].
+Proof.
+  cbv zeta. split; [|split; [vm_compute; reflexivity|vm_compute; split; reflexivity]].
+  constructor.
+  - constructor; try (intros z; destruct z); vm_compute; repeat constructor; try discriminate.
+  - intros z; destruct z; reflexivity.
+  - intros z; destruct z; reflexivity.
+  - intros z; destruct z; vm_compute; discriminate.
+Qed.
